@@ -369,8 +369,92 @@ def r5_unions_and_check_elision(ctx):
               "only means the types OVERLAP): a value outside the asserted type takes the branch", tb.loc(pushes[0]))
 
 
+def r6_narrowing_state(ctx):
+    R = "R-C09-6"
+    ctx.rule(R, "the branch-complement state machine (narrowing::Narrowing): the type a complement is taken AGAINST (`Active.original_type_id`) and the "
+                "value it belongs to (`Active.provenance`) are fixed when the narrowing becomes Active — never written in place; a repeated check of the "
+                "same value only narrows `narrowed_type_id`, by intersect_types(<its old value>, ..). (later branches see original \\ narrowed: resetting the "
+                "original to an already narrowed type subtracts every value that failed the first check)")
+    F = ctx.facts
+    NARR = "narrowing::Narrowing"
+    SAFE = ("PartialEq::eq", "PartialEq::ne", "Clone::clone", "Debug::fmt", "Deref::deref")
+    n = 0
+    for body in F.bodies(crate="quiver_compiler"):
+        if body.fn.get("derived"):
+            continue
+        fl = Flow(body, through_named=True)
+        for bi, si, st in body.stmts():
+            if st["k"] != "assign":
+                continue
+            # direct write:  ((*x) as Active).f = v
+            fs = [e for e in st["p"]["pr"] if e[0] == "f"]
+            tgt = None
+            if fs and (fs[-1][2] or "").endswith(NARR) and fs[-1][1] in ("original_type_id", "provenance", "narrowed_type_id"):
+                tgt = (fs[-1][1], st, bi, si)
+            # write through a `&mut` taken of the field (match ergonomics on `&mut self`)
+            if st["rv"]["k"] == "ref" and st["rv"].get("mut"):
+                fr = [e for e in st["rv"]["p"]["pr"] if e[0] == "f"]
+                if fr and (fr[-1][2] or "").endswith(NARR) and fr[-1][1] in ("original_type_id", "provenance", "narrowed_type_id"):
+                    y = st["p"]["l"]
+                    grp = {y}
+                    for _ in range(4):
+                        for b2, s2, st2 in body.stmts():
+                            if st2["k"] == "assign" and not st2["p"]["pr"] and st2["rv"]["k"] in ("use", "ref"):
+                                pl = st2["rv"].get("p") or op_place(st2["rv"].get("op") or {})
+                                if pl and pl["l"] in grp and (st2["rv"]["k"] == "use" or st2["rv"].get("mut")):
+                                    grp.add(st2["p"]["l"])
+                    for b2, s2, st2 in body.stmts():
+                        if st2["k"] == "assign" and st2["p"]["l"] in grp and st2["p"]["pr"] and st2["p"]["pr"][0][0] == "*":
+                            tgt = (fr[-1][1], st2, b2, s2)
+                            break
+                    else:
+                        for b2, t2 in body.calls():
+                            if any((op_place(a) or {}).get("l") in grp and not (op_place(a) or {}).get("pr") and a.get("c") == "move" for a in t2["args"]) and \
+                                    not any((t2.get("callee") or "").endswith(x) for x in SAFE):
+                                tgt = (fr[-1][1], None, b2, None)
+            if not tgt:
+                continue
+            fname, wst, wb, ws = tgt
+            n += 1
+            site = "%s|Active.%s=" % (body.key.split("::{closure")[0], fname)
+            if fname in ("original_type_id", "provenance"):
+                ctx.violated(R, site, "an Active narrowing's %s is rewritten in place: the complement for the following branches is then taken against a type "
+                                      "other than the one the value had at the first check — values that failed the first check are subtracted away and their "
+                                      "branch is compiled out as dead" % fname, body.loc(wb, ws) if ws is not None else body.loc(wb))
+            else:
+                ok = False
+                if wst is not None and wst["rv"]["k"] == "use" and op_place(wst["rv"]["op"]):
+                    srcs = fl.sources(op_place(wst["rv"]["op"])["l"])
+                    calls = [x for x in srcs if x[0] == "call"]
+                    ok = bool(calls) and len(calls) == len(srcs) and all((x[2].get("callee") or "").endswith("intersect_types") for x in calls)
+                    for x in calls:
+                        olds = set()
+                        for a in x[2]["args"]:
+                            pl = op_place(a)
+                            if pl:
+                                olds |= {f for _o, f in fl.slice_reads(pl["l"])[0]}
+                        ok = ok and "narrowed_type_id" in olds
+                ctx.check(ok, R, site, "narrowed_type_id := intersect_types(old narrowed_type_id, new)",
+                          "a repeated check overwrites the narrowed type instead of intersecting it with the old one", body.loc(wb, ws) if ws is not None else body.loc(wb))
+    ctx.floor(R, "in-place updates of an Active narrowing", n, 1)
+
+
+def r7_narrowing_scope(ctx):
+    """a narrowing (whole-variable or per-field) applies only to the binding it was recorded for — shared with R-C01-5"""
+    from rules import c01
+    before = len(ctx.obs)
+    c01.r5_narrowing_belongs_to_its_binding(ctx)
+    for o in ctx.obs[before:]:
+        o["rule"] = "R-C09-7"
+    if "R-C01-5" in ctx.rules:
+        ctx.rules["R-C09-7"] = ctx.rules.pop("R-C01-5")
+    for f in ctx.floors:
+        if f["rule"] == "R-C01-5":
+            f["rule"] = "R-C09-7"
+
+
 def run(ctx):
-    ctx.run_rules([r1_polarity, r2_matrix, r3_narrowing_direction, r4_closed_callees, r5_unions_and_check_elision])
+    ctx.run_rules([r1_polarity, r2_matrix, r3_narrowing_direction, r4_closed_callees, r5_unions_and_check_elision, r6_narrowing_state, r7_narrowing_scope])
     ctx.note("NOT decided: soundness/transitivity of the coinductive relation over all type graphs; completeness of overlap inside structural arms "
              "(e.g. partial-vs-partial patterns are limited by the compiler's static field indexing, observation F14 in DESIGN.md)")
     return (
